@@ -35,8 +35,9 @@ TRUSTED_BASE = [
     '(_fw_* tables in harness/props/c14.py); the firmware source is not available offline',
 ]
 ASSUMPTIONS = [
-    'PyYAML: safe_load(dump(x)) == x for the plain data the two file managers write (dict/list/str/int/bool/float); stated '
-    'as a Section hypothesis in the Coq development and validated on every generated file by the oracle',
+    'PyYAML: safe_load(dump(x)) == x for PLAIN data only (None/bool/int/str, non-NaN float, list, dict with str/int keys: yv_plain); '
+    'hypothesis of the YAML theorems; every run the oracle checks on real files with the real yaml (no recorder on that path) that the '
+    'round trip holds and, with a recorder, that everything the library hands to yaml.dump is inside that domain (a tuple is not)',
     'a read request that does not fit into the memory fails (error status) and the element is not called back',
     'float fields are float32-representable and not signalling NaNs',
 ]
@@ -46,7 +47,7 @@ PROVED = ('Histories on one I2CElement/OWElement object (any sequence of update/
           'which a version byte 1->0 escapes (F14b); lighthouse geometry/calibration memory layouts and file objects, '
           'deck-info bit fields, anchor lists, trajectory pieces and LED timing sequences have the stated layout and '
           'round-trip; YAML files round-trip under the YAML round-trip hypothesis.')
-NOT_PROVED = ('State that leaks between reads of one object is recorded, not excluded: an update is ignored for ever after a read that never completed (F14c), OWElement.elements is never cleared (F14d), radio_address survives a version-0 re-read (F14e). The clause "any single corrupted EEPROM byte is detected" is refuted for the version byte (F14b, known '
+NOT_PROVED = ('A failed read request (device error) still leaves an update pending (the elements have no read-failed handler): hence the not-pending factor in the valid_reflects_last_read theorems. The clause "any single corrupted EEPROM byte is detected" is refuted for the version byte (F14b, known '
               'finding). PyYAML itself is a hypothesis (validated per generated file). Float fields are opaque bit '
               'patterns: rounding of Python doubles to float32 is outside the model.')
 
@@ -1970,7 +1971,7 @@ def i2c_rnd_history(rng, wedge=True):
         ops.append(['setmem', list(mem)])
     else:
         f = i2c_rnd_fields(rng)
-        mem = i2c_sim_write(mem, f) + bytes(rng.getrandbits(8) for _ in range(rng.choice([0, 5, 6])))
+        mem = i2c_sim_write(mem, f) + bytes(rng.getrandbits(8) for _ in range(rng.choice([0, 5, 6]) if wedge else rng.choice([5, 6, 11])))
         ops.append(['setmem', list(mem)])
     mems.append(mem)
     for _ in range(rng.randrange(2, 9)):
@@ -2044,8 +2045,7 @@ def i2c_hist_check(c):
             unfinished = False
         elif op[0] == 'update':
             if len(mem) < 21:
-                unfinished = True
-                continue
+                return None         # a read request fails (device error): outside this oracle, covered by the tie
             want = i2c_expected_valid(mem)
             if o['valid'] != want:
                 cls = 'i2c_valid_not_last_read'
